@@ -11,7 +11,10 @@ for f in sorted(glob.glob(os.path.join(V, "seeded", "*", "meta.json"))):
     ok = all(conf.get(k) for k in ("applies", "suite_passes_with",
                                    "demo_fails_with", "demo_passes_without"))
     rows.append((sid, m.get("property", "?"), (m.get("summary") or "")[:110].replace("|", "/"),
-                 ", ".join("%s:%s" % (p, "caught" if v else "MISSED") for p, v in sorted(det.items())),
+                 ", ".join("%s:%s" % (p, "caught" if v else (
+                     "MISSED" if p == m.get("property") else
+                     "no alarm (named by the author under also_breaks)"))
+                     for p, v in sorted(det.items())),
                  "yes" if ok else "NO"))
 with open(os.path.join(V, "seeded", "INDEX.md"), "w") as fh:
     fh.write("| seeded change | property | what it does | checks (quick tier) | confirmed |\n|---|---|---|---|---|\n")
